@@ -90,7 +90,8 @@ def gen_case(r, flavour):
                 cmds.append(['process'])
         elif role == 'observer':
             for _ in range(n + 1):
-                cmds.append(['emptyq'])
+                # the property's second observer: waitFor that times out while no DisableQueueNotify exists
+                cmds.append(['waitfor'] if r.chance(30) else ['emptyq'])
         else:
             for _ in range(n):
                 cmds.append(enq() if r.chance(50) else list(r.pick([['process'], ['processone'], ['emptyq'], ['take']])))
@@ -103,7 +104,7 @@ def gen_case(r, flavour):
         sched.append(cur)
     # waits may also end without a notification: token 1000 + w = the timed wait of thread w times out now,
     # token 2000 + w = the wait of thread w wakes up spuriously (both are no-ops when they do not apply)
-    if flavour == 'wait' and r.chance(40):
+    if (flavour == 'wait' and r.chance(40)) or (flavour == 'empty' and r.chance(70)):
         waiters = [i for i, th in enumerate(threads) if any(c[0] in ('wait', 'waitfor') for c in th)]
         for _ in range(r.range(1, 3)):
             if waiters:
@@ -147,6 +148,89 @@ def monitors(trace, case=None):
             # with several waiters notify_one may legitimately wake one that does not drain the queue
             if int(kv.get('pending', '0')) > 0 and int(kv.get('nc', '0')) == 0 and (case is None or single_waiter(case)):
                 problems.append('every thread is blocked for ever although %s event(s) are pending and notification is enabled (lost wake-up)' % kv['pending'])
+    return problems
+
+
+def empty_report_problems(trace, case):
+    """C11 as stated: if emptyQueue() returns true — or waitFor times out while no DisableQueueNotify object exists — then every
+    event whose enqueue had completed before that call began has been fully consumed (its dispatch has returned, or it was
+    taken or cleared).  Read off one trace: a call begins after the thread's previous result line; an enqueue has completed at
+    its `done` line; an event counts as consumed from its `disp` line (the listener prints it; nothing weaker can be asked),
+    a taken one from the BEGINNING of the call that reports it (`taken` is printed after the call has returned), and — since
+    clearEvents reports nothing — any event counts as cleared from the beginning of every clearEvents call that had not
+    ended when the event's enqueue began.  A waitFor during which queueNotifyCounter was ever above zero is not judged."""
+    if case is None:
+        return []
+    n = len(case['threads'])
+    # per thread: the calls as (begin, end, command); end = position of the result line (None: not finished)
+    calls = [[] for _ in range(n)]
+    b = [0] * n
+    k = [0] * n
+    for pos, l in enumerate(trace):
+        ws = l.split()
+        if ws and ws[0] in ('res', 'done') and ws[1][1:].isdigit():
+            t = int(ws[1][1:])
+            if t < n and k[t] < len(case['threads'][t]):
+                calls[t].append((b[t], pos, case['threads'][t][k[t]], ws))
+                k[t] += 1
+                b[t] = pos + 1
+    for t in range(n):
+        if k[t] < len(case['threads'][t]):
+            calls[t].append((b[t], None, case['threads'][t][k[t]], None))
+
+    def call_at(t, pos):
+        for c in calls[t]:
+            if c[0] <= pos and (c[1] is None or pos <= c[1]):
+                return c
+        return None
+    enq = {}                # (key, arg) -> (begin, done)
+    for t in range(n):
+        for (cb, ce, cmd, ws) in calls[t]:
+            if cmd[0] == 'enqueue' and ce is not None:
+                enq[(cmd[1], cmd[2])] = (cb, ce)
+    clears = [(cb, ce) for t in range(n) for (cb, ce, cmd, ws) in calls[t] if cmd[0] == 'clear']
+    consumed = {}
+    for pos, l in enumerate(trace):
+        ws = l.split()
+        if ws and ws[0] in ('disp', 'taken', 'drained') and len(ws) >= 4 and ws[1][1:].isdigit():
+            t = int(ws[1][1:])
+            ev = (ws[-2], ws[-1])
+            at = pos
+            if ws[0] != 'disp' and t < n:
+                c = call_at(t, pos)
+                at = c[0] if c else pos
+            consumed[ev] = min(consumed.get(ev, at), at)
+    for ev, (eb, ed) in enq.items():
+        for (cb, ce) in clears:
+            if ce is None or ce > eb:
+                consumed[ev] = min(consumed.get(ev, cb), cb)
+    nc_seen = [(pos, int(l.split()[4])) for pos, l in enumerate(trace)
+               if l.startswith('act') and len(l.split()) >= 5 and l.split()[3] == 'nc' and l.split()[4].lstrip('-').isdigit()]
+
+    def disabled_during(cb, ce):
+        level = 0
+        for pos, v in nc_seen:
+            if pos < cb:
+                level = v
+            elif pos <= ce and v > 0:
+                return True
+        return level > 0
+    problems = []
+    for t in range(n):
+        for (cb, ce, cmd, ws) in calls[t]:
+            if ce is None or ws[0] != 'res':
+                continue
+            if cmd[0] == 'emptyq' and ws[2] == '1':
+                what = 'returned true'
+            elif cmd[0] == 'waitfor' and ws[2] == '0' and not disabled_during(cb, ce):
+                what = 'timed out with no DisableQueueNotify alive'
+            else:
+                continue
+            for ev, (eb, ed) in enq.items():
+                if ed < cb and not (ev in consumed and consumed[ev] < ce):
+                    problems.append('%s of thread t%d %s although event %s %s, whose enqueue had completed before the call began, had not been dispatched, taken or cleared'
+                                    % (cmd[0], t, what, ev[0], ev[1]))
+                    break
     return problems
 
 
